@@ -1,6 +1,6 @@
 """Sibling comparison: bodies that must be isomorphic modulo a renaming."""
 import ast
-import copy
+from .sym import copy_ast
 
 from .core import norm
 
@@ -40,7 +40,7 @@ def normalised(stmts, mapping=None, drop_asserts=False):
     for s in strip_doc(stmts):
         if drop_asserts and isinstance(s, ast.Assert):
             continue
-        s2 = copy.deepcopy(s)
+        s2 = copy_ast(s)
         if mapping:
             s2 = _Rename(mapping).visit(s2)
         out.append(norm(s2))
